@@ -41,7 +41,11 @@ def replay_history(item) -> list[dict]:
     static, table = _STATE["static"], _STATE["table"]
     rng = random.Random(seed * 31 + idx)
     dtype = torch.float32 if idx % 4 == 0 else torch.float64
-    st = Stepper(static, pre, rng, dtype=dtype)
+    # mixed-precision parameter sets: only when every .grad pre-exists (with an absent .grad torch itself
+    # refuses a gradient of another dtype, so such calls are outside the universe)
+    mixed = (2, 4) if (idx % 3 == 1 and len(pre) == len(GRAD_LEAVES)
+                       and all(h["act"] in ("call", "zero", "edit") for h in hist)) else ()
+    st = Stepper(static, pre, rng, dtype=dtype, mixed=mixed)
     fails = []
     prev = table[_hkey(pre, [])]
     for j, ev in enumerate(hist):
